@@ -196,7 +196,8 @@ def square_root_mod_prime(a, p):
     # every prime p from 3 to 1229.
 
     assert 0 <= a < p
-    assert 1 < p
+    if not 1 < p:
+        raise SquareRootError("modulus %d is not a prime" % p)
 
     if a == 0:
         return 0
@@ -214,7 +215,8 @@ def square_root_mod_prime(a, p):
         d = pow(a, (p - 1) // 4, p)
         if d == 1:
             return pow(a, (p + 3) // 8, p)
-        assert d == p - 1
+        if d != p - 1:
+            raise SquareRootError("p is not prime")
         return (2 * a * pow(4 * a, (p - 5) // 8, p)) % p
 
     if PY2:
@@ -229,7 +231,7 @@ def square_root_mod_prime(a, p):
             if ff[1]:
                 raise SquareRootError("p is not prime")
             return ff[0]
-    raise RuntimeError("No b found.")
+    raise SquareRootError("No b found, p is not prime")
 
 
 # because all the inverse_mod code is arch/environment specific, and coveralls
